@@ -1,10 +1,10 @@
 #!/bin/bash
 # Confirms one independently written seeded change in its scratch worktree and files it under
-# /verif/seeded/<prop>-<k>/ (patch.diff, demo, meta.json). Usage: tools/verify-seed.sh <prop> <k> [worktree]
+# /verif/seeded/<prop>-<outk>/ (patch.diff, demo, meta.json). Usage: tools/verify-seed.sh <prop> <k> [worktree] [outk]
 # Checks: patch applies to clean src; crate compiles; the repository's unedited suite passes with it
 # (for C16 also with --features serde); the demo fails with it and passes without it.
 set -u
-prop="$1"; k="$2"; wt="${3:-/tmp/seed/$prop}"
+prop="$1"; k="$2"; wt="${3:-/tmp/seed/$prop}"; outk="${4:-$k}"
 export CARGO_NET_OFFLINE=true
 cd "$wt" || exit 2
 feat=""; [ "$prop" = "C16" ] && feat="--features serde"
@@ -22,25 +22,25 @@ outc=$(cargo test --offline $feat --test seed${k}_demo 2>&1); rc_demo_without=$?
 rm -f tests/seed${k}_demo.rs; mv /var/tmp/seedhold-$prop/* tests/ 2>/dev/null; rmdir /var/tmp/seedhold-$prop
 ok=1
 [ $rc_suite -ne 0 ] && ok=0; [ $rc_serde -ne 0 ] && ok=0; [ $rc_demo_with -eq 0 ] && ok=0; [ $rc_demo_without -ne 0 ] && ok=0
-echo "$prop-$k: suite[$suite rc=$rc_suite] serde[$suite_serde rc=$rc_serde] demo-with-change[$demo_with rc=$rc_demo_with] demo-without[$demo_without rc=$rc_demo_without] => $([ $ok -eq 1 ] && echo CONFIRMED || echo REJECTED)"
+echo "$prop-$outk: suite[$suite rc=$rc_suite] serde[$suite_serde rc=$rc_serde] demo-with-change[$demo_with rc=$rc_demo_with] demo-without[$demo_without rc=$rc_demo_without] => $([ $ok -eq 1 ] && echo CONFIRMED || echo REJECTED)"
 if [ $ok -eq 1 ]; then
-  d=/verif/seeded/$prop-$k; mkdir -p $d
+  d=/verif/seeded/$prop-$outk; mkdir -p $d
   cp seed$k.diff $d/patch.diff; cp tests/seed${k}_demo.rs $d/demo.rs; cp seed$k.md $d/author-notes.md
-  python3 - "$prop" "$k" "$suite" "$suite_serde" "$demo_with" "$demo_without" <<'PY'
+  python3 - "$prop" "$outk" "$suite" "$suite_serde" "$demo_with" "$demo_without" "$wt" "$k" <<'PY'
 import json, sys, re
-prop, k, suite, serde, dw, dwo = sys.argv[1:7]
+prop, k, suite, serde, dw, dwo, wt, origk = sys.argv[1:9]
 notes = open(f"/verif/seeded/{prop}-{k}/author-notes.md").read()
 meta = {
   "id": f"{prop}-{k}", "breaks_property": prop,
   "origin": "written by a fresh sub-agent that was given only the text of the property and a scratch worktree (nothing from /verif)",
   "needs_to_manifest": "see author-notes.md (the author's own description)",
   "confirmed_by_me": {
-    "where": f"scratch worktree /tmp/seed/{prop} (a git worktree of /repo at HEAD)",
+    "where": f"scratch worktree {wt} (a git worktree of /repo at HEAD)",
     "patch_applies_and_compiles": True,
     "repo_suite_with_change": f"cargo test --workspace --no-fail-fast --offline: {suite}",
     "repo_suite_with_change_serde_feature": serde or None,
-    "demo_with_change": f"cargo test --offline --test seed{k}_demo: {dw} (fails, as required)",
-    "demo_without_change": f"cargo test --offline --test seed{k}_demo: {dwo} (passes, as required)",
+    "demo_with_change": f"cargo test --offline --test seed{origk}_demo: {dw} (fails, as required)",
+    "demo_without_change": f"cargo test --offline --test seed{origk}_demo: {dwo} (passes, as required)",
   },
 }
 json.dump(meta, open(f"/verif/seeded/{prop}-{k}/meta.json", "w"), indent=1)
